@@ -542,6 +542,12 @@ func c07SeekExtremes(c *rt.Ctx) {
 						}) &&
 						step("Read(8 bytes)", func() { _, _ = f.Read(buf) }) &&
 						step(fmt.Sprintf("ReadAt(8 bytes,%d)", off), func() { _, _ = f.ReadAt(buf, off) }) &&
+						(off <= math.MaxInt64-2 || step(fmt.Sprintf("WriteAt(2 bytes,%d)", off), func() {
+							// the end of the write lies beyond the largest offset: refused, not an index out of range
+							if n, err := f.WriteAt([]byte("zz"), off); err == nil {
+								panic(fmt.Sprintf("WriteAt returns n=%d and no error", n))
+							}
+						})) &&
 						step("Seek(0,1)", func() { _, _ = f.Seek(0, 1) }) &&
 						step("Stat()", func() { _, _ = f.Stat() }) &&
 						step("Truncate(path,3)", func() { _ = v.Truncate("/w/f", 3) }) &&
@@ -551,6 +557,50 @@ func c07SeekExtremes(c *rt.Ctx) {
 						step("Remove(path)", func() { _ = v.Remove("/w/f") })
 					_ = ok
 				}
+			}
+		}
+	}
+}
+
+// c07BatchExtremes: batch sizes at the ends of the int range on a directory handle whose cursor is not at the start.
+func c07BatchExtremes(c *rt.Ctx) {
+	for _, fsType := range []string{"MemFS", "OrefaFS"} {
+		for _, n := range []int{math.MaxInt, math.MaxInt - 1, math.MaxInt - 2, math.MinInt, math.MinInt + 1, -1, 0, 2} {
+			for variant := 0; variant < 4; variant++ {
+				v := newBase(fsType)
+				for _, d := range []string{"/w/a", "/w/b", "/w/c"} {
+					_ = v.MkdirAll(d, 0o755)
+				}
+				f, err := v.OpenFile("/w", os.O_RDONLY, 0)
+				if err != nil {
+					continue
+				}
+				var hist []string
+				step := func(what string, fn func()) bool {
+					hist = append(hist, what)
+					c07Log(fsType + ": " + what)
+					verdict, detail := c07Invoke(reflect.ValueOf(fn), nil)
+					c.Rep.Case(fmt.Sprintf("%s|batch-extremes|%s|%s", fsType, strings.SplitN(what, "(", 2)[0], verdict), true)
+					if verdict != "returns" {
+						c.Disagree(fmt.Sprintf("%s|batch-extremes|%s|%s", fsType, strings.SplitN(what, "(", 2)[0], verdict), fmt.Sprintf("%s: on a handle of a directory of 3 entries, after %v, %s %s: %s", fsType, hist[:len(hist)-1], what, verdict, detail), map[string]any{"fs": fsType, "history": hist})
+						return false
+					}
+					return true
+				}
+				first, second := "ReadDir", "ReadDir"
+				if variant&1 != 0 {
+					first = "Readdirnames"
+				}
+				if variant&2 != 0 {
+					second = "Readdirnames"
+				}
+				call := func(k string, n int) func() {
+					if k == "ReadDir" {
+						return func() { _, _ = f.ReadDir(n) }
+					}
+					return func() { _, _ = f.Readdirnames(n) }
+				}
+				_ = step(first+"(1)", call(first, 1)) && step(fmt.Sprintf("%s(%d)", second, n), call(second, n)) && step(first+"(1)", call(first, 1)) && step("Close()", func() { _ = f.Close() })
 			}
 		}
 	}
@@ -746,6 +796,8 @@ func init() {
 			c07Watched.Store(true)
 			if c.Shard == 3%c.NShards {
 				c07SeekExtremes(c)
+				c07BatchExtremes(c)
+				c07KthFault(c)
 			}
 			c07Faults(c)
 
@@ -926,6 +978,64 @@ func c07SharedHandle(c *rt.Ctx, st *c06Stats, r *rand.Rand) {
 // c07Faults fails every consultation of one FailFS function id at a time (all ids) and runs the helpers that are made of
 // several primitives on files whose sizes sit around the internal buffer sizes (512 bytes, 32 KiB): whatever they return,
 // they must return (a helper that keeps reading after a failed size probe is a runaway under the sequential hook).
+// c07KthFault: the helpers of the top-level package under "the k-th primitive consulted during the call fails": a
+// helper that looks twice at a path (found, then gone) must still return.
+func c07KthFault(c *rt.Ctx) {
+	errs := []struct {
+		name string
+		err  error
+	}{{"opaque", errors.New("c07-injected")}, {"not-exist", &fs.PathError{Op: "c07", Path: "/injected", Err: avfs.ErrNoSuchFileOrDir}}, {"permission", &fs.PathError{Op: "c07", Path: "/injected", Err: avfs.ErrPermDenied}}}
+	for _, fsType := range []string{"MemFS", "OrefaFS"} {
+		base := newBase(fsType)
+		_ = base.MkdirAll("/w/d/e", 0o755)
+		_ = base.MkdirAll("/w/empty", 0o755)
+		_ = base.WriteFile("/w/f", []byte("0123456789"), 0o644)
+		ff := failfs.New(base)
+		var count, failAt int
+		var injected error
+		_ = ff.SetFailFunc(func(_ avfs.VFSBase, _ avfs.FnVFS, _ *failfs.FailParam) error {
+			fsx.CheckRunaway()
+			count++
+			if count-1 == failAt {
+				return injected
+			}
+			return nil
+		})
+		helpers := []struct {
+			name string
+			fn   func(p string)
+		}{
+			{"IsEmpty", func(p string) { _, _ = avfs.IsEmpty(ff, p) }}, {"Exists", func(p string) { _, _ = avfs.Exists(ff, p) }}, {"DirExists", func(p string) { _, _ = avfs.DirExists(ff, p) }},
+			{"IsDir", func(p string) { _, _ = avfs.IsDir(ff, p) }}, {"ReadDir", func(p string) { _, _ = ff.ReadDir(p) }}, {"ReadFile", func(p string) { _, _ = ff.ReadFile(p) }},
+			{"Glob", func(p string) { _, _ = ff.Glob(p + "/*") }}, {"WalkDir", func(p string) { _ = ff.WalkDir(p, func(string, fs.DirEntry, error) error { return nil }) }},
+			{"HashFile", func(p string) { _, _ = avfs.HashFile(ff, p, sha256.New()) }}, {"CopyFile", func(p string) { _ = avfs.CopyFile(ff, ff, "/w/copy", p) }},
+			{"WriteFile", func(p string) { _ = ff.WriteFile(p+".n", []byte("x"), 0o644) }}, {"MkdirTemp", func(p string) { _, _ = ff.MkdirTemp(p, "t*") }},
+			{"CreateTemp", func(p string) {
+				if f, err := ff.CreateTemp(p, "t*"); err == nil && f != nil {
+					_ = f.Close()
+				}
+			}},
+			{"MkdirAll", func(p string) { _ = ff.MkdirAll(p+"/x/y", 0o755) }}, {"RemoveAll", func(p string) { _ = ff.RemoveAll(p + "/x") }},
+		}
+		for _, h := range helpers {
+			for _, p := range []string{"/w/empty", "/w/d", "/w/f", "/w/missing"} {
+				for _, e := range errs {
+					for k := 0; k < 6; k++ {
+						count, failAt, injected = 0, k, e.err
+						c07Log(fmt.Sprintf("%s: %s(%s) with the primitive number %d failing (%s)", fsType, h.name, p, k, e.name))
+						fn := h.fn
+						verdict, detail := c07Invoke(reflect.ValueOf(func() { fn(p) }), nil)
+						c.Rep.Case(fmt.Sprintf("FailFS(%s)|kth-fault|%s|k=%d/%s|%s", fsType, h.name, k, e.name, verdict), true)
+						if verdict != "returns" {
+							c.Disagree(fmt.Sprintf("FailFS(%s)|kth-fault|%s|%s", fsType, h.name, verdict), fmt.Sprintf("FailFS over %s with the primitive number %d of the call failing with a %s error: %s(%q) %s: %s", fsType, k, e.name, h.name, p, verdict, detail), map[string]any{"fs": fsType, "helper": h.name, "path": p, "k": k, "error": e.name})
+						}
+					}
+				}
+			}
+		}
+	}
+}
+
 func c07Faults(c *rt.Ctx) {
 	// the injected error is of every class the composites look at (errors.Is ... fs.ErrExist / fs.ErrNotExist /
 	// fs.ErrPermission decide about retries and fallbacks), wrapped as the file systems wrap theirs, or opaque
